@@ -269,6 +269,21 @@ func init() {
 	}
 
 	// --- bytes / strings ---
+	natives["bytes.Repeat"] = func(x *Exec, st *State, fr *Frame, at ssa.Instruction, a []Val) (Val, bool) {
+		// bytes.Repeat(b, n): n copies of b; modelled when b is a one-byte slice (padding idiom)
+		if len(a) != 2 || a[0].T.Sort != SSlice || App(SInt, "s.len", a[0].T).S != "1" {
+			return Val{}, false
+		}
+		x.safety(st, fr, at, "bytes.Repeat", App(SBool, ">=", a[1].T, IntLit(0)))
+		en, es := elemArrName(SInt)
+		harr := x.heapArr(st, en, es)
+		b0 := x.define(st, "rep.b", Select(Select(harr, App(SRef, "s.base", a[0].T)), App(SInt, "s.off", a[0].T)))
+		r := x.newRef(st, "repeat")
+		row := x.D.Fresh("rep.row", ArraySort(SInt, SInt))
+		st.assume(Term{fmt.Sprintf("(forall ((i Int)) (! (=> (and (<= 0 i) (< i %s)) (= (select %s i) %s)) :pattern ((select %s i))))", a[1].T.S, row.S, b0.S, row.S), SBool})
+		x.setHeap(st, en, Store(harr, r, row))
+		return Val{T: App(SSlice, "mk-slice", r, IntLit(0), a[1].T, a[1].T), Typ: a[0].Typ}, true
+	}
 	natives["bytes.Equal"] = func(x *Exec, st *State, fr *Frame, at ssa.Instruction, a []Val) (Val, bool) {
 		return Val{T: Eq(x.bytesOf(st, a[0]), x.bytesOf(st, a[1])), Typ: types.Typ[types.Bool]}, true
 	}
@@ -559,8 +574,22 @@ func init() {
 		return Val{T: mkMInt(a[len(a)-1].T), Typ: nil}, true
 	}
 	natives[big+"NewInt"] = bigFromInt
-	natives[big+"(*Int).SetUint64"] = bigFromInt
-	natives[big+"(*Int).SetInt64"] = bigFromInt
+	// z.SetUint64(v) / z.SetInt64(v): the result, and -- big.Int being modelled by value -- the new
+	// value of the receiver's own SSA name (`estimate.SetUint64(x)` as a statement mutates estimate).
+	// Other names aliasing the same big.Int are not updated (assumption: no aliasing of big.Ints).
+	bigSet := func(x *Exec, st *State, fr *Frame, at ssa.Instruction, a []Val) (Val, bool) {
+		r := Val{T: mkMInt(a[len(a)-1].T), Typ: nil}
+		if c, ok := at.(*ssa.Call); ok && !c.Call.IsInvoke() && len(c.Call.Args) > 0 {
+			if old, ok := fr.env[c.Call.Args[0]]; ok && old.T.Sort == SMInt {
+				nv := old
+				nv.T = r.T
+				fr.env[c.Call.Args[0]] = nv
+			}
+		}
+		return r, true
+	}
+	natives[big+"(*Int).SetUint64"] = bigSet
+	natives[big+"(*Int).SetInt64"] = bigSet
 
 	// sdk.NewCoin(denom, amount): the coin itself (it panics for a negative amount / invalid denom)
 	natives[pkgSDK+"NewCoin"] = func(x *Exec, st *State, fr *Frame, at ssa.Instruction, a []Val) (Val, bool) {
